@@ -438,6 +438,8 @@ class AppTracker(object):
             self.small_delivered.inc((sender_side, payload))
             if rec["delivered"] > 1:
                 self.c.inc("double_deliveries")
+                if self.classify_double(conn, seqnum) is None:
+                    self._window_miss(conn, seqnum)
                 self.report("C04", self.classify_double(conn, seqnum) or "delivered-twice",
                             "short message %s (message seq %d, retry %d) delivered %d times to the %s application" % (
                                 short(payload), int(seqnum), rec["retry"], rec["delivered"], side))
@@ -481,8 +483,19 @@ class AppTracker(object):
                 return "retransmission-older-than-message-window"     # the completing fragment of a fragmented message
         return None
 
+    def _window_miss(self, conn, seqnum):
+        """C08: a message whose sequence number is still inside the receiver's 256-message window was handed over again,
+        i.e. it was not flagged duplicate although it had been received inside the window"""
+        e = self.tap.ends.get(id(conn))
+        ctx = getattr(e, "last_recv", None) if e is not None else None
+        if ctx and ctx["msg_top"] and seqnum is not None and 0 <= ring_diff(ctx["msg_top"], int(seqnum)) < 256:
+            self.report("C08", "message-duplicate-not-flagged", "message seq %d (window top %d at the start of the datagram) was received before and is inside the "
+                        "256-message window, yet it was delivered again" % (int(seqnum), ctx["msg_top"]))
+
     def double_delivery(self, rec, lst, conn=None):
         mech = self.classify_double(conn, lst[-1][2]) if conn is not None else None
+        if conn is not None and mech is None:
+            self._window_miss(conn, lst[-1][2])
         self.report("C04", mech or "delivered-twice", lambda: "message %r (%d bytes, retry %d) delivered %d times to the %s application at t=%s" % (
             rec["id"], rec["len"], rec["retry"], len(lst), lst[-1][1], [round(x[0] - self.world.clock.now, 3) for x in lst[:10]]))
 
@@ -743,6 +756,11 @@ class ResolutionMonitor(object):
     def accepted(self, e, dec, u_peer):
         """an inbound datagram was accepted by e: which of e's pending datagrams does it name?"""
         w = self.world
+        if e.closed or getattr(e.conn.status, "value", 0) in (4, 5):
+            # the application closed this end (disconnect() abandons everything pending): C07 speaks of open connections
+            e.pending.clear()
+            self.c.inc("acks_after_close_not_judged")
+            return
         named = set()
         top = e.unwrap_own(dec.ack) if dec.ack != 0 else None
         if top is not None:
